@@ -445,8 +445,11 @@ fn rebind(mode: &str) -> String {
         };
         if mode == "b" {
             let r = portus::ipc::unix::Socket::<Blocking>::new(&rname).ok()?;
-            let _old = portus::ipc::unix::Socket::<Blocking>::new(&sname).ok()?;
+            let mut old = portus::ipc::unix::Socket::<Blocking>::new(&sname).ok()?;
             let new = portus::ipc::unix::Socket::<Blocking>::new(&sname).ok()?;
+            // the predecessor is closed (as `Backend::drop` does) AFTER its successor was bound: the name now belongs to the successor
+            // (round 6: close unlinked the bound path by name - the file of the newer socket)
+            let _ = portus::ipc::Ipc::close(&mut old);
             new.send(b"hello", &to_r).ok()?;
             let got = try_recv(&|b| r.recv(b))?;
             let reply_sent = r.send(b"reply", &got.1).is_ok();
@@ -454,8 +457,11 @@ fn rebind(mode: &str) -> String {
             Some((got.0 == b"hello", got.1 == want, matches!(back, Some((ref d, ref a)) if d == b"reply" && *a == to_r)))
         } else {
             let r = portus::ipc::unix::Socket::<Nonblocking>::new(&rname).ok()?;
-            let _old = portus::ipc::unix::Socket::<Nonblocking>::new(&sname).ok()?;
+            let mut old = portus::ipc::unix::Socket::<Nonblocking>::new(&sname).ok()?;
             let new = portus::ipc::unix::Socket::<Nonblocking>::new(&sname).ok()?;
+            // the predecessor is closed (as `Backend::drop` does) AFTER its successor was bound: the name now belongs to the successor
+            // (round 6: close unlinked the bound path by name - the file of the newer socket)
+            let _ = portus::ipc::Ipc::close(&mut old);
             new.send(b"hello", &to_r).ok()?;
             let got = try_recv(&|b| r.recv(b))?;
             let reply_sent = r.send(b"reply", &got.1).is_ok();
